@@ -185,7 +185,87 @@ func cmdReplay(args []string) int {
 	return 0
 }
 
+// cmdSelftest: translator validation. Concrete workloads (harness H_selftest) are run from the SSA by the executor
+// and natively from the compiled package; the two transcripts must be identical.
 func cmdSelftest(args []string) int {
-	fmt.Println("selftest: not implemented yet")
+	idx, err := loadIndex()
+	if err != nil {
+		fmt.Fprintln(os.Stderr, err)
+		return 2
+	}
+	var spec *HarnessSpec
+	for i := range idx.Harnesses {
+		if idx.Harnesses[i].Property == "SELFTEST" {
+			spec = &idx.Harnesses[i]
+		}
+	}
+	if spec == nil {
+		fmt.Fprintln(os.Stderr, "no SELFTEST harness")
+		return 2
+	}
+	rp, err := newReplayer()
+	if err != nil {
+		fmt.Fprintln(os.Stderr, "replay build failed:", err)
+		return 2
+	}
+	defer rp.close()
+	w, err := startWorker()
+	if err != nil {
+		fmt.Fprintln(os.Stderr, err)
+		return 2
+	}
+	defer w.stop()
+	bad := 0
+	for inst := 0; inst < spec.Instances; inst++ {
+		j := jobFor("SELFTEST", *spec, inst, spec.TimeoutMS, nil)
+		j.SliceS = 900
+		r, err := w.run(j)
+		if err != nil || len(r.Violations) < 1 {
+			fmt.Printf("selftest #%d: executor run did not produce a transcript (err=%v ends=%v %s)\n", inst, err, r.Ends, r.Error)
+			for _, m := range r.Inconcl {
+				fmt.Println("   ", m)
+			}
+			bad++
+			continue
+		}
+		v := r.Violations[0]
+		path := filepath.Join(rp.dir, fmt.Sprintf("selftest_%d.json", inst))
+		b, _ := json.Marshal(v)
+		os.WriteFile(path, b, 0o644)
+		verdict := rp.replay(path, spec.Pkg)
+		var res struct {
+			Failures []string `json:"failures"`
+		}
+		json.Unmarshal([]byte(verdict.Raw), &res)
+		native := strings.Join(res.Failures, "; ")
+		lines := strings.Count(v.Msg, "\n")
+		if native == v.Msg {
+			fmt.Printf("selftest #%d: OK (%d transcript lines identical, %d executor steps)\n", inst, lines, r.Steps)
+			continue
+		}
+		bad++
+		fmt.Printf("selftest #%d: TRANSCRIPTS DIFFER\n", inst)
+		el, nl := strings.Split(v.Msg, "\n"), strings.Split(native, "\n")
+		shown := 0
+		for k := 0; k < len(el) || k < len(nl); k++ {
+			var a, b string
+			if k < len(el) {
+				a = el[k]
+			}
+			if k < len(nl) {
+				b = nl[k]
+			}
+			if a != b {
+				fmt.Printf("  line %d\n    executor: %s\n    native:   %s\n", k, a, b)
+				shown++
+				if shown >= 10 {
+					break
+				}
+			}
+		}
+	}
+	if bad > 0 {
+		return 1
+	}
 	return 0
 }
